@@ -111,6 +111,10 @@ func normErr(s string) string {
 	if wrongArgsRe.MatchString(s) {
 		return "invalid number of arguments"
 	}
+	if strings.HasPrefix(s, "cannot follow: ") {
+		// the resolver/dialer text carries ephemeral ports
+		return "cannot follow"
+	}
 	return s
 }
 
